@@ -86,11 +86,13 @@ pub fn fnv64(data: &[u8]) -> u64 {
 }
 
 pub fn hex(data: &[u8]) -> String {
-    let mut s = String::with_capacity(data.len() * 2);
+    const H: &[u8; 16] = b"0123456789abcdef";
+    let mut s = Vec::with_capacity(data.len() * 2);
     for b in data {
-        let _ = write!(s, "{b:02x}");
+        s.push(H[(b >> 4) as usize]);
+        s.push(H[(b & 15) as usize]);
     }
-    s
+    String::from_utf8(s).unwrap_or_default()
 }
 
 pub fn unhex(s: &str) -> Vec<u8> {
@@ -228,6 +230,11 @@ pub struct Ctx {
     /// monitor sub-mode (leg), e.g. "miri", "asan", "" = default
     pub leg: String,
     pub out: String,
+    /// write the generated inputs of this leg to a file instead of executing them
+    /// (used to keep workload generation out of the Miri interpreter)
+    pub emit: Option<String>,
+    /// execute the inputs of this file instead of generating them
+    pub inputs: Option<String>,
     pub repo: String,
     pub start: Instant,
     progress: Option<std::fs::File>,
@@ -322,11 +329,43 @@ impl Ctx {
             literal: None,
             leg: String::new(),
             out: String::new(),
+            emit: None,
+            inputs: None,
             repo: "/repo".to_string(),
             start: Instant::now(),
             progress: None,
             report: Report::default(),
         }
+    }
+
+    /// Pre-generated inputs, if the driver supplied a file.
+    pub fn read_inputs(&self) -> Option<Vec<Vec<u8>>> {
+        let f = self.inputs.as_ref()?;
+        let data = std::fs::read(f).ok()?;
+        let mut out = Vec::new();
+        let mut p = 0;
+        while p + 8 <= data.len() {
+            let n = u64::from_le_bytes(data[p..p + 8].try_into().unwrap()) as usize;
+            p += 8;
+            if p + n > data.len() {
+                break;
+            }
+            out.push(data[p..p + n].to_vec());
+            p += n;
+        }
+        Some(out)
+    }
+
+    /// In emit mode: write the inputs and tell the caller to stop.
+    pub fn emit_inputs(&self, inputs: &[Vec<u8>]) -> bool {
+        let Some(f) = self.emit.as_ref() else { return false };
+        let mut data = Vec::new();
+        for i in inputs {
+            data.extend_from_slice(&(i.len() as u64).to_le_bytes());
+            data.extend_from_slice(i);
+        }
+        let _ = std::fs::write(f, data);
+        true
     }
 
     pub fn quick(&self) -> bool {
@@ -378,16 +417,10 @@ impl Ctx {
         if let Some(f) = self.progress.as_mut() {
             use std::io::{Seek, SeekFrom};
             let _ = f.seek(SeekFrom::Start(0));
-            let mut buf = Vec::with_capacity(witness.len() * 2 + 64);
-            let _ = write!(
-                &mut buf,
-                "{} {} {:<12}\n",
-                stream,
-                index,
-                witness.len().min(1 << 20)
-            );
-            buf.extend_from_slice(hex(&witness[..witness.len().min(1 << 20)]).as_bytes());
-            buf.push(b'\n');
+            let w = &witness[..witness.len().min(1 << 20)];
+            let mut buf = Vec::with_capacity(w.len() + 64);
+            buf.extend_from_slice(format!("{stream} {index} {}\n", w.len()).as_bytes());
+            buf.extend_from_slice(w);
             let _ = f.write_all(&buf);
             let _ = f.set_len(buf.len() as u64);
         }
